@@ -133,9 +133,9 @@ func c06Ctors(ctx *run.Ctx) {
 func c06(ctx *run.Ctx) {
 	c06Ctors(ctx)
 	base := baseStrats(ctx, ctx.Pick(8, 60))
-	classes := []string{gen.Walk, gen.Walk2, gen.Dyadic, gen.Ties, gen.Degen}
+	classes := []string{gen.Walk, gen.Walk2, gen.Dyadic, gen.Ties, gen.Degen, gen.Halt}
 	if !ctx.Quick() {
-		classes = gen.OHLCVClasses
+		classes = append(append([]string(nil), gen.OHLCVClasses...), gen.Halt)
 	}
 	for _, row := range reg.SortedStrats() {
 		ctx.Count("cmp:"+row.Name, 0)
